@@ -298,6 +298,13 @@ func (fr *Frame) logCallIf(alias string, cc *ssa.CallCommon, res Val, cond Term)
 }
 
 func (fr *Frame) dispatchCall(instr ssa.Instruction, cc *ssa.CallCommon, pos token.Pos, names []string) Val {
+	saved := fr.pendingArgs
+	fr.pendingArgs = fr.callArgVals(cc)
+	defer func() { fr.pendingArgs = saved }()
+	return fr.dispatchCall2(instr, cc, pos, names)
+}
+
+func (fr *Frame) dispatchCall2(instr ssa.Instruction, cc *ssa.CallCommon, pos token.Pos, names []string) Val {
 	eng := fr.R.Eng
 	if cc.IsInvoke() {
 		recv := fr.val(cc.Value)
